@@ -2,6 +2,8 @@
 from __future__ import annotations
 
 import ast
+import warnings
+warnings.filterwarnings("ignore", category=SyntaxWarning)
 import hashlib
 import json
 import os
